@@ -2,7 +2,9 @@
 SOURCE_COMMITS = []
 EXTRA_ONLY = set()
 NOTES = ("Technique family: contract-based deductive verification of the real code. Exit codes of every check: 0 discharged, "
-         "1 VIOLATION (refuted obligation), 2 undecided (time-out/weaver abort; never a violation). See DESIGN.md.")
+         "1 VIOLATION (refuted obligation), 2 undecided (time-out/weaver abort; never a violation). See DESIGN.md. Genuine defects repaired in /repo by unguarded fix: commits "
+         "(known_findings.txt): 0e2256e mpz_inp_raw short read, 12a3475 and d465c1e gmp_printf flag rules, 6510f97 block byte sizes in int, ea6e797 LC generator with odd m2exp, "
+         "e76c625 mpz_get_str beyond INT_MAX digits. No hook commits: nothing in /repo tests the guard define.")
 
 TB = ("Trusted: CBMC 6.11 + kissat; the loop-cut weaver (engine/weave.py; must-fail mutants per unit in the thorough tier); "
       "shim models of the x86-64 inline asm in longlong.h; operand length <= 2^40 limbs; the telescoping-sum lemma (carry chain at "
